@@ -114,6 +114,11 @@ impl<'a> Lexer<'a> {
     }
 
     fn number(&mut self, start: usize, c: char) -> TokenKind {
+        if c.is_ascii_digit() && self.is_digit_leading_identifier(c) {
+            self.s.eat_while(is_identifier_continue);
+            return TokenKind::Id;
+        }
+
         match self.s.peek() {
             Some(c2) if !c2.is_ascii_digit() => match c {
                 '+' => return TokenKind::Plus,
@@ -153,6 +158,21 @@ impl<'a> Lexer<'a> {
             2 => TokenKind::BinaryIntVal,
             10 | 16 => TokenKind::IntVal,
             _ => unreachable!(),
+        }
+    }
+
+    /// An identifier may start with digits (`4abc`) as long as a letter or `_` follows them;
+    /// `0x<hex digit>` and `0b<binary digit>` start a number instead.
+    fn is_digit_leading_identifier(&self, first: char) -> bool {
+        let rest = self.s.after();
+        let after_digits = rest.trim_start_matches(|c: char| c.is_ascii_digit());
+        let only_zero = first == '0' && after_digits.len() == rest.len();
+        let mut chars = after_digits.chars();
+        match (chars.next(), chars.next()) {
+            (Some('x'), Some(c)) if only_zero && c.is_ascii_hexdigit() => false,
+            (Some('b'), Some('0' | '1')) if only_zero => false,
+            (Some(c), _) => is_identifier_start(c),
+            _ => false,
         }
     }
 
